@@ -346,3 +346,56 @@ def sep_family(rng, n):
         parts.append(rng.choice(SEP_GLUE))
         out.append("".join(parts))
     return out
+
+
+# ----------------------------------------------------------------------------- C11 family
+
+OC_CHARS = [" ", "\n", "\t", ";", ",", ".", "=", "*", "/", "+", "-", "<", ">", "^", "~", "\u00ac", "\u2218", "|",
+            "!", "\u00a6", "(", ")", "{", "}", "[", "]", ":", "$", "@", "#", "?", "&", "%", "'", "\"", "a", "x", "e",
+            "d", "t", "_", "0", "1", "9", "\u00e9", "\u4e2d", "\U0001F525", "\u00a0", "\\", "`", "\x0b"]
+OC_SMALL = [" ", "\n", ";", ".", "=", "*", "/", "'", "\"", "a", "x", "1", "e", "$", "&", "%", "<", ">", "\u00e9", "d", "t"]
+OC_WORDS = ["data", "set", "run", "datalines", "cards", "lines", "datalines4", "cards4", "lines4", ";;;;", "input", "_all_",
+            "corresponding", "exec", "and", "eq", "in", "not", "abcdefghijklmn", "correspondingx", "1e5", "0ffx", "1.5",
+            "$char10.", "$f.", "'a'dt", "\"a\"x", "'1g'x", "/*c*/", "/*", "*/", "**", "<>", "><", "=*", "^=", "||",
+            "!!", "\u00a6\u00a6", "<=", ">=", "&&", "%%", "% ", "& ", "%1", "&1", "%=", "''", '""']
+
+
+def macro_free(s):
+    import re
+    def ns(ch):
+        return ch == "_" or ch.isidentifier()
+    for i, ch in enumerate(s):
+        if ch == "%" and i + 1 < len(s) and (s[i + 1] == "*" or ns(s[i + 1])):
+            return False
+        if ch == "&":
+            j = i
+            while j < len(s) and s[j] == "&":
+                j += 1
+            if j < len(s) and ns(s[j]):
+                return False
+    return True
+
+
+def oc_family(rng, n, exh_full=2, exh_small=3):
+    import itertools
+    out = []
+    for ln in range(1, exh_full + 1):
+        for tup in itertools.product(OC_CHARS, repeat=ln):
+            out.append("".join(tup))
+    for ln in range(exh_full + 1, exh_small + 1):
+        for tup in itertools.product(OC_SMALL, repeat=ln):
+            out.append("".join(tup))
+    pool = OC_CHARS + OC_WORDS
+    # datalines blocks in and out of statement position, terminated or not, with followers
+    for kw in ["datalines", "CARDS", "lines", "datalines4", "Cards4", "lines4"]:
+        for pre in ["", ";", "x ", "a;", "/*c*/", "*c;", "x;\n"]:
+            for ws in ["", " ", "\n "]:
+                for data in ["", "\n1 2\n", "a;b", ";;;", "\u00e9;;"]:
+                    for term in ["", ";", ";;;;", ";;"]:
+                        for post in ["", "* c;", " x", ";ab", "*"]:
+                            if rng.random() < 0.12:
+                                out.append(pre + kw + ws + ";" + data + term + post)
+    for _ in range(n):
+        k = rng.randint(2, 10)
+        out.append("".join(rng.choice(pool) if rng.random() < 0.85 else rng.choice([" ", ";", "\n"]) for _ in range(k)))
+    return [s for s in out if macro_free(s)]
